@@ -944,3 +944,63 @@ def rule_getter_alias(ctx: Ctx, consumer_rels: List[str], state_classes: List[Tu
                                  f"reduces the total weight of a mixed stabilizer state, so the two backends disagree)", func=f"{cname}.{attr}",
                                  construct=f"{cname}.{attr}: getter returns a copy but {qualname(fn)} edits it in place")
     # zero sites is caught by the caller's instance floor (findings of other rules take precedence over it)
+
+
+
+# --------------------------------------------------------------------------- weight.fidelity
+
+
+def rule_weighted_fidelity(ctx: Ctx) -> None:
+    """weight.fidelity: for a mixed stabilizer state the fidelity with a pure target is sum_i p_i F(T_i, T): every per-branch
+    fidelity that enters the result is multiplied by that branch's probability — also when there is only one branch (after photon
+    loss a single branch has weight < 1)."""
+    repo = ctx.repo
+    rel = "graphiq/metrics.py"
+    m = repo.module(rel)
+    fn = repo.anchor(rel, "Infidelity.evaluate")
+    ctx.touch(m, fn)
+    env = {}
+    for a in ast.walk(fn):
+        if isinstance(a, ast.Assign) and len(a.targets) == 1 and isinstance(a.targets[0], ast.Name):
+            env.setdefault(a.targets[0].id, a.value)
+
+    def is_mixture(e: ast.AST, depth: int = 0) -> bool:
+        if isinstance(e, ast.Attribute) and e.attr in ("mixture", "_mixture"):
+            return True
+        if isinstance(e, ast.Name) and e.id in env and depth < 3:
+            return is_mixture(env[e.id], depth + 1)
+        return False
+
+    n = 0
+    for c in [x for x in ast.walk(fn) if isinstance(x, ast.Call) and call_name(x) in ("sfm.fidelity", "fidelity")]:
+        if len(c.args) < 2:
+            continue
+        t = c.args[1]
+        prob = None
+        # (a) comprehension / loop variable pair over the mixture
+        p_ = parent(c)
+        while p_ is not None and p_ is not fn:
+            gens = p_.generators if isinstance(p_, (ast.ListComp, ast.GeneratorExp)) else ([p_] if isinstance(p_, ast.For) else [])
+            for g in gens:
+                tgt = g.target
+                if is_mixture(g.iter) and isinstance(tgt, ast.Tuple) and len(tgt.elts) == 2 and norm(tgt.elts[1]) == norm(t):
+                    prob = norm(tgt.elts[0])
+            p_ = parent(p_)
+        # (b) mixture[k][1]
+        if prob is None and isinstance(t, ast.Subscript) and norm(t.slice) == "1" and isinstance(t.value, ast.Subscript) and is_mixture(t.value.value):
+            prob = f"{norm(t.value)}[0]"
+        if prob is None:
+            continue
+        n += 1
+        par = parent(c)
+        weighted = isinstance(par, ast.BinOp) and isinstance(par.op, ast.Mult) and prob in (norm(par.left), norm(par.right))
+        if weighted:
+            ctx.ok("weight.fidelity", m, c, what="branch fidelity weighted by the branch probability")
+        else:
+            ctx.fail("weight.fidelity", m, c,
+                     f"Infidelity.evaluate takes `{short(c)}` for a branch of the mixture without multiplying by the branch's probability `{prob}`: a "
+                     f"mixture with one branch is not a normalised pure state after photon loss (its weight is the survival probability), so the "
+                     f"reported fidelity is too large by 1/weight and differs from the density-matrix backend's", func="Infidelity.evaluate",
+                     construct="Infidelity.evaluate: branch fidelity not weighted by its probability")
+    if n == 0:
+        raise AnalysisError("Infidelity.evaluate: no per-branch stabilizer fidelity found")
